@@ -318,7 +318,7 @@ def build(P):
             if msgs: break
         return msgs
 
-    C14 = dict(cases=c14_cases, model_is_oracle=("out", "exit", "files", "termination"), oracle=c14_oracle, nontrivial=lambda c, r, m: True,
+    C14 = dict(cases=c14_cases, builds_quick=["normal", "san"], model_is_oracle=("out", "exit", "files", "termination"), oracle=c14_oracle, nontrivial=lambda c, r, m: True,
                rule="histories over {OPEN, CLOSE, SEEK k (0..4), PUT single-line, PUT multi-line, GET} on one file: a sample of depth 4 (quick) / all of depth 6 up to a cap (thorough), "
                     "each followed by close, reopen and a read of record 1, as REPL sessions compared with the model; random histories of 10..60 steps on two files judged step by step "
                     "by an explicit list-plus-cursor model in the harness; files written in advance and loaded by a fresh process (records with embedded line breaks), SEEK to n+2 rejected")
@@ -380,7 +380,7 @@ def build(P):
             return ["lines read back: expected %r, got %r (exit %d)" % (exp[:200], r.out.decode("latin1")[:200], r.exit)]
         return []
 
-    C15 = dict(cases=c15_cases, oracle=c15_oracle, nontrivial=lambda c, r, m: b"count" in r.out or c.id.startswith("C15-shape"),
+    C15 = dict(cases=c15_cases, builds_quick=["normal", "san"], oracle=c15_oracle, nontrivial=lambda c, r, m: b"count" in r.out or c.id.startswith("C15-shape"),
                rule="write histories (WRITE session then up to 1 (quick) / 2 (thorough) APPEND sessions, 0..2 / 0..3 lines each, values of every printable type incl. blanks, '#', quotes, "
                     "empty string, REAL with 6 decimals) followed by the WHILE NOT EOF / READFILE loop: lines and count computed by the harness; pre-existing files with and "
                     "without a final line break, blank lines, CR bytes, long lines, random contents; non-trivial = distinct program whose read loop finished")
@@ -537,7 +537,7 @@ def build(P):
                 msgs.append("file contents after the run: expected %r, found %r" % (disk, got))
         return msgs
 
-    C16 = dict(cases=c16_cases, oracle=c16_oracle, nontrivial=lambda c, r, m: True,
+    C16 = dict(cases=c16_cases, builds_quick=["normal", "san"], oracle=c16_oracle, nontrivial=lambda c, r, m: True,
                rule="histories over two file names and {OPEN READ/WRITE/APPEND/RANDOM, READFILE, WRITEFILE, EOF, SEEK, GETRECORD, PUTRECORD, CLOSEFILE}: all of length 2, random of length "
                     "3..5 and 6..40, as REPL sessions ended by end of input, each step judged accept/reject by an explicit handle-state model in the harness and the directory "
                     "contents after the run compared with that model; the legal prefix also in file mode ended by a runtime error or by the end of the program; fault sequences: "
